@@ -32,21 +32,21 @@ type Known struct {
 
 // Summary is what a child writes when it finishes normally.
 type Summary struct {
-	Shard        int              `json:"shard"`
-	Evaluations  int64            `json:"evaluations"`
-	Nontrivial   int64            `json:"nontrivial"`
-	Violations   []Violation      `json:"violations"`
-	NViolations  int64            `json:"n_violations"`
-	Known        []Known          `json:"known"`
-	KnownCount   map[string]int64 `json:"known_count"`
-	Stats        map[string]int64 `json:"stats"`
-	Maxes        map[string]int64 `json:"maxes"`
+	Shard        int                 `json:"shard"`
+	Evaluations  int64               `json:"evaluations"`
+	Nontrivial   int64               `json:"nontrivial"`
+	Violations   []Violation         `json:"violations"`
+	NViolations  int64               `json:"n_violations"`
+	Known        []Known             `json:"known"`
+	KnownCount   map[string]int64    `json:"known_count"`
+	Stats        map[string]int64    `json:"stats"`
+	Maxes        map[string]int64    `json:"maxes"`
 	Sets         map[string][]string `json:"sets"`
-	Samples      []any            `json:"samples"`
-	Extra        map[string]any   `json:"extra"`
-	Inconclusive []string         `json:"inconclusive"`
-	SelfCheck    []string         `json:"selfcheck_failures"`
-	HookOn       bool             `json:"hook_on"`
+	Samples      []any               `json:"samples"`
+	Extra        map[string]any      `json:"extra"`
+	Inconclusive []string            `json:"inconclusive"`
+	SelfCheck    []string            `json:"selfcheck_failures"`
+	HookOn       bool                `json:"hook_on"`
 }
 
 // W is the child-side handle given to a property's Run function.
